@@ -471,6 +471,9 @@ fn run_zc(ctx: &mut Ctx, t: &mut Toks) -> Option<()> {
 }
 
 pub fn run_op(ctx: &mut Ctx, op: &str) {
+    if ctx.hang_limit_reached() {
+        return;
+    }
     let mut t = Toks(op.split_whitespace());
     let r = match t.0.next() {
         Some("bs") => run_bs(ctx, op, &mut t),
